@@ -89,7 +89,7 @@ Theorem C04_code_schemas_extras_nested : forall sid vs Js body Jl, tfin 8 env0 (
   has_type env0 (TStruct sid) (VStruct vs) ->
   xfields env0 (fields_of env0 sid) vs Js body -> junks_ok None (fields_of env0 sid) Js -> trailing_ok (fields_of env0 sid) Jl ->
   decode env0 sid (body ++ ser_fields Jl) = DOk (norm_struct env0 sid (VStruct vs)) (ser_fields Jl)
-  /\\ decode env0 sid (encode env0 sid (VStruct vs)) = DOk (norm_struct env0 sid (VStruct vs)) [].
+  /\ decode env0 sid (encode env0 sid (VStruct vs)) = DOk (norm_struct env0 sid (VStruct vs)) [].
 Proof. exact RoundTripExamples.env0_extras_nested. Qed.
 (* the same for any struct type (recursive ones included) and any admissible target, with the explicit fuel hypothesis *)
 Theorem C04_extras_nested_into : forall e k sid vs prior Js body tail,
